@@ -1,5 +1,5 @@
 """C01 - aggregates equal the sums over the resting orders: conservation ledger (L1-L6)."""
-from ..terms import Affine, affine, prove_zero, short, Int, is_int, subterms
+from ..terms import Affine, affine, prove_zero, short, Int, is_int, subterms, get_field
 from ..common import describe_path
 from ..level import LevelAnalysis, MUTATORS, SELF, mentions_eff, seq_view
 from ..db import AnchorError
@@ -224,6 +224,19 @@ def cname_of(defp):
     return cname(defp)
 
 
+def _self_field(st, fld):
+    """value of self.<fld> at an exit: a field write, or the field of a whole-object write (`*self = Self { .. }`)"""
+    selfobj = ("obj", ("param", 1))
+    v = st.heap.get((selfobj, (("f", None, fld),)))
+    if v is None:
+        whole = st.heap.get((selfobj, ()))
+        if isinstance(whole, tuple) and whole[0] in ("agg", "upd"):
+            v = get_field(whole, fld)
+            if isinstance(v, tuple) and v[0] == "field" and v[1] == whole:
+                v = None
+    return v
+
+
 def check_refresh_aggregates(ctx, ra, R):
     """fold rule: accumulators start at 0, are updated only by saturating_add(acc, accessor(elem)) in a loop over
     the orders, and stored to the like-roled field after the loop; order_count := orders.len()."""
@@ -241,6 +254,12 @@ def check_refresh_aggregates(ctx, ra, R):
         for (root, path) in r.state.heap:
             if root == ("obj", ("param", 1)) and path and path[0][2] == "orders":
                 return False, "refresh_aggregates writes the order list"
+            if root == ("obj", ("param", 1)) and not path:
+                # `*self = Self { .. }`: the order list must be carried over unchanged
+                whole = r.state.heap[(root, path)]
+                kept = get_field(whole, "orders") if isinstance(whole, tuple) and whole[0] in ("agg", "upd") else None
+                if kept != ("field", ("val", root), None, "orders"):
+                    return False, "refresh_aggregates replaces the snapshot with one whose order list is %s" % short(kept)
     if len(rets) >= 1 and len(backs) == 0:
         return check_refresh_by_sum(ctx, rets, R)
     if len(rets) < 1 or len(backs) < 1:
@@ -251,11 +270,11 @@ def check_refresh_aggregates(ctx, ra, R):
     for r in rets:
         st = r.state
         for fld, role in want.items():
-            v = st.heap.get((selfobj, (("f", None, fld),)))
+            v = _self_field(st, fld)
             if not (isinstance(v, tuple) and v[0] == "havoc"):
                 # zero-iteration value is fine too only if it is the accumulator initial; require havoc (loop-carried)
                 return False, "self.%s is not assigned from a loop-carried accumulator (got %s)" % (fld, short(v))
-        cnt = st.heap.get((selfobj, (("f", None, "order_count"),)))
+        cnt = _self_field(st, "order_count")
         if not (isinstance(cnt, tuple) and cnt[0] == "call" and cnt[1].endswith("len")):
             return False, "self.order_count is not orders.len() (got %s)" % short(cnt)
         if "orders" not in short(cnt):
@@ -264,7 +283,7 @@ def check_refresh_aggregates(ctx, ra, R):
     r0 = rets[0]
     acc_local = {}
     for fld in want:
-        acc_local[fld] = r0.state.heap[(selfobj, (("f", None, fld),))]   # ('havoc', key, local)
+        acc_local[fld] = _self_field(r0.state, fld)   # ('havoc', key, local)
     # initial values (pre-loop) are recorded in the loop marker
     for r in rets + backs:
         loops = [e for e in r.trace if e[0] == "loop"]
@@ -306,11 +325,11 @@ def check_refresh_by_sum(ctx, rets, R):
     want = {"visible_quantity": "display", "hidden_quantity": "reserve"}
     for r in rets:
         st = r.state
-        cnt = st.heap.get((selfobj, (("f", None, "order_count"),)))
+        cnt = _self_field(st, "order_count")
         if not (isinstance(cnt, tuple) and cnt[0] == "call" and cnt[1].endswith("len") and "orders" in short(cnt)):
             return False, "self.order_count is not orders.len() (got %s)" % short(cnt)
         for fld, role in want.items():
-            v = st.heap.get((selfobj, (("f", None, fld),)))
+            v = _self_field(st, fld)
             if isinstance(v, tuple) and v[0] == "field" and v[3].isdigit() and isinstance(v[1], tuple) and v[1][0] == "call" and v[1][1].endswith("fold"):
                 ok, why = _fold_component_ok(ctx, v[1], int(v[3]), role, R)
                 if not ok:
@@ -373,6 +392,15 @@ def _fold_component_ok(ctx, foldcall, idx, role, R):
             return False, "component %d is updated to %s, not saturating_add(acc, ..)" % (idx, short(comp)[:80])
         q = comp[2]
         vs = [a[2] for a, p in rc.facts.order if a[0] == "variant" and a[2] in R.variants]
+        if not vs and isinstance(q, tuple) and q[0] == "field" and q[1] == ("param", 3) and q[3].isdigit() \
+                and isinstance(it, tuple) and it[0] == "call" and it[1].endswith("::map") and len(it[2]) == 2:
+            # idiom C': the orders are first mapped to a tuple of quantities, the fold adds tuple components
+            if comp[1] != ("field", ("param", 2), None, str(idx)):
+                return False, "component %d accumulates %s" % (idx, short(comp[1])[:60])
+            ok, why = _mapped_component_ok(ctx, it[2][1], int(q[3]), role, R)
+            if not ok:
+                return False, why
+            continue
         if not vs:
             return False, "closure does not discriminate the order"
         f = (R.display if role == "display" else R.reserve)[vs[0]]
@@ -382,6 +410,34 @@ def _fold_component_ok(ctx, foldcall, idx, role, R):
         elif not (isinstance(q, tuple) and q[0] == "field" and q[2] == vs[0] and q[3] == f):
             return False, "adds %s, not the %s quantity" % (short(q)[:60], role)
     return n > 0, "fold"
+
+
+def _mapped_component_ok(ctx, clo, k, role, R):
+    """the mapping closure `|o| (.., role(o), ..)`: component k is the role quantity of the order on every path"""
+    if not (isinstance(clo, tuple) and clo[0] == "agg" and isinstance(clo[1], str) and clo[1].startswith("closure:")):
+        return False, "no mapping closure"
+    cb = ctx.db.bodies.get(clo[1][len("closure:"):])
+    if cb is None:
+        return False, "mapping closure body not found"
+    n = 0
+    for rc in ctx.walker(max_depth=3).walk(cb):
+        if rc.kind != "return":
+            continue
+        n += 1
+        val = rc.value
+        if not (isinstance(val, tuple) and val[0] == "tuple" and k < len(val[1])):
+            return False, "mapping closure returns %s" % short(val)[:80]
+        q = val[1][k]
+        vs = [a[2] for a, p in rc.facts.order if a[0] == "variant" and a[2] in R.variants]
+        if not vs:
+            return False, "mapping closure does not discriminate the order"
+        f = (R.display if role == "display" else R.reserve)[vs[0]]
+        if f is None:
+            if q != Int(0):
+                return False, "maps a %s order to %s" % (vs[0], short(q))
+        elif not (isinstance(q, tuple) and q[0] == "field" and q[2] == vs[0] and q[3] == f):
+            return False, "maps the order to %s, not its %s quantity" % (short(q)[:60], role)
+    return n > 0, "map"
 
 
 def constructor_site_ok(L, r, t, ra):
